@@ -60,6 +60,12 @@ def derives_from_source(expr):
 
 def check(chk, repo, tier):
     chk.trusted_base += ["CPython ast"]
+    cache_discipline(chk, repo, "C13", full=True)
+
+
+def cache_discipline(chk, repo, P, full=False):
+    """The lazy-list cache rules; emitted under rule prefix P (C13, and the
+    append-only subset for C10)."""
     mod = repo.mod("LazyList")
     cls = mod.cls("LazyList")
     F = mod.rel
@@ -116,12 +122,12 @@ def check(chk, repo, tier):
             in_class = sm == "LazyList" and fname in methods
             cons = f"{sm}.{fname}:{' '.join(m.seg(n).split())[:60]}"
             if not in_class:
-                chk.ob("C13.cache-writers", cons, False,
+                chk.ob(P + ".cache-writers", cons, False,
                        "the lazy-list cache is written outside the LazyList "
                        "class", m.rel, n.lineno)
                 continue
             if fname not in WRITERS:
-                chk.ob("C13.cache-writers", cons, False,
+                chk.ob(P + ".cache-writers", cons, False,
                        f"LazyList.{fname} is an observation but writes the "
                        "cache directly (only __next__ may add pulled items)",
                        m.rel, n.lineno)
@@ -146,11 +152,79 @@ def check(chk, repo, tier):
                        "the already cached prefix: items are duplicated"
                        if it else "the added items do not come from "
                        "self.raw_object")
-            chk.ob("C13.cache-write-discipline", cons, ok, why, m.rel,
+            chk.ob(P + ".cache-write-discipline", cons, ok, why, m.rel,
                    n.lineno, witness="LazyList([1,2,3])[-1] then list(l)"
                    if fname == "__getitem__" else None,
                    sample={"method": fname, "write": write})
-    chk.floor("writes to the lazy-list cache", n_writes, 4)
+    chk.floor("writes to the lazy-list cache", n_writes, 2)
+
+    # ---- G7: whatever is pulled from the source iterator lands in the cache ----
+    for name, fn in methods.items():
+        for n in ast.walk(fn):
+            if not is_self_attr(n, SOURCE) or not isinstance(n.ctx, ast.Load):
+                continue
+            if name == "__init__":
+                continue
+            # the statement that consumes raw_object
+            st = n
+            while getattr(st, "_parent", None) is not None and not isinstance(
+                    st, ast.stmt):
+                st = st._parent
+            writes_cache = False
+            if isinstance(st, ast.AugAssign) and is_self_attr(
+                    st.target, CACHE):
+                writes_cache = True
+            if isinstance(st, ast.Assign) and name == "__next__":
+                # item = vyxalify(next(self.raw_object)); appended below (G5)
+                writes_cache = True
+            if isinstance(st, ast.Expr) and isinstance(st.value, ast.Call) \
+                    and isinstance(st.value.func, ast.Attribute) \
+                    and is_self_attr(st.value.func.value, CACHE) \
+                    and st.value.func.attr in ("append", "extend"):
+                writes_cache = True
+            chk.ob(P + ".source-drained-into-cache",
+                   f"LazyList.{name}:{' '.join(mod.seg(st).split())[:60]}",
+                   writes_cache,
+                   "items are pulled from self.raw_object but not stored in "
+                   "the cache: they are lost, and the list denotes a shorter "
+                   "sequence afterwards", F, n.lineno,
+                   witness="l[0]; l.reversed() forced; len(l)",
+                   sample={"method": name})
+
+    # ---- G8: the cached count is not the length unless exhausted --------------------
+    for name, fn in methods.items():
+        exhausted_lines = []
+        for n in ast.walk(fn):
+            if isinstance(n, ast.Call) and (dotted(n.func) or "") in (
+                    "self.listify", "len") and (
+                    dotted(n.func) == "self.listify" or (
+                        n.args and isinstance(n.args[0], ast.Name)
+                        and n.args[0].id == "self")):
+                exhausted_lines.append(n.lineno)
+            if isinstance(n, ast.While) and isinstance(
+                    n.test, ast.Constant) and n.test.value is True and any(
+                    isinstance(h, ast.ExceptHandler) and "StopIteration" in
+                    ast.unparse(h.type or ast.Constant(value=""))
+                    for h in ast.walk(n)):
+                exhausted_lines.append(n.lineno)
+        for n in ast.walk(fn):
+            if not (isinstance(n, ast.Call) and dotted(n.func) == "len"
+                    and n.args and is_self_attr(n.args[0], CACHE)):
+                continue
+            par = getattr(n, "_parent", None)
+            as_length = (isinstance(par, ast.Compare) and any(
+                isinstance(o, (ast.Eq, ast.NotEq)) for o in par.ops)) or \
+                isinstance(par, ast.Return)
+            if not as_length:
+                continue
+            ok = any(ln < n.lineno for ln in exhausted_lines)
+            chk.ob(P + ".cached-count-is-not-length",
+                   f"LazyList.{name}:{ast.unparse(par)[:50]}", ok,
+                   "len(self.generated) is used as the length of the list "
+                   "without exhausting the source first: the answer depends "
+                   "on which observations were made before", F, n.lineno,
+                   witness="LazyList([0,1,2]) == [0,1] on a fresh list",
+                   sample={"method": name})
 
     # ---- G2: the source iterator is set once -------------------------------------
     for n in ast.walk(mod.tree):
@@ -161,7 +235,7 @@ def check(chk, repo, tier):
             if is_self_attr(t, SOURCE):
                 fn = enclosing_function(n)
                 fname = fn.name if isinstance(fn, ast.FunctionDef) else "?"
-                chk.ob("C13.source-set-once", f"LazyList.{fname}:raw_object =",
+                chk.ob(P + ".source-set-once", f"LazyList.{fname}:raw_object =",
                        fname == "__init__",
                        "the source iterator is replaced after construction",
                        F, n.lineno, sample=fname)
@@ -186,13 +260,13 @@ def check(chk, repo, tier):
             elif isinstance(par, (ast.List, ast.Tuple, ast.Dict)):
                 esc = "placed in a container"
             if esc:
-                chk.ob("C13.cache-no-escape", f"LazyList.{name}:{esc}", False,
+                chk.ob(P + ".cache-no-escape", f"LazyList.{name}:{esc}", False,
                        f"the cache list itself is {esc}: whoever holds it can "
                        "change what the lazy list denotes", F, n.lineno,
                        witness="printing a lazy list that contains a function "
                                "lets the function pop from the cache"
                        if name == "output" else None)
-    chk.ob("C13.cache-no-escape", "LazyList (all other methods)", True)
+    chk.ob(P + ".cache-no-escape", "LazyList (all other methods)", True)
 
     # ---- G5: __next__ pulls one item, caches it, returns it ----------------------------
     nx = methods["__next__"]
@@ -214,13 +288,71 @@ def check(chk, repo, tier):
                        for t in n.targets)]
         ok = len(src) == 1 and any(c is pulls[0] for c in ast.walk(
             src[0].value))
-    chk.ob("C13.next-caches-what-it-returns", "LazyList.__next__", ok,
+    chk.ob(P + ".next-caches-what-it-returns", "LazyList.__next__", ok,
            "__next__ must pull exactly one item from raw_object, append that "
            "item to the cache and return the same item", F, nx.lineno,
            sample={"pulls": len(pulls), "appends": len(apps)})
 
+    iteration_rules(chk, repo, P + ".iter-resumes-after-cache")
+
+    # ---- G4: observers reach the cache only through next(self) ----------------------------
+    for name in OBSERVERS:
+        fn = methods.get(name)
+        if fn is None:
+            continue
+        direct = [n for n in ast.walk(fn) if isinstance(n, ast.Call)
+                  and dotted(n.func) == "next" and n.args
+                  and is_self_attr(n.args[0], SOURCE)]
+        chk.ob(P + ".observers-pull-through-next", f"LazyList.{name}",
+               not direct,
+               "an observer pulls from raw_object directly: the pulled item "
+               "is lost to the cache and later observations disagree", F,
+               direct[0].lineno if direct else fn.lineno,
+               sample={"observer": name})
+
+    if not full:
+        return
+    chk.explanation = (
+        "Decides the clause 'observations never change the sequence the lazy "
+        "list denotes' through the cache discipline: every write to "
+        "*.generated in the package is classified (constructor reset, "
+        "__next__ append of the pulled item, __setitem__, extension from "
+        "raw_object that does not iterate self); raw_object is set once; the "
+        "cache list does not escape; __next__ caches exactly what it returns; "
+        "__iter__ resumes after the cached prefix; observers pull only "
+        "through next(self). Does not decide the values observers return "
+        "(wrap-around, slices, equality).")
+    chk.assumptions += ["LazyList instances are only built by the class "
+                        "constructor"]
+
+
+def iteration_rules(chk, repo, RULE):
+    mod = repo.mod("LazyList")
+    cls = mod.cls("LazyList")
+    F = mod.rel
+    methods = {m.name: m for m in cls.body if isinstance(m, ast.FunctionDef)}
+    if "__iter__" not in methods:
+        raise AnalysisError("anchor vanished: LazyList.__iter__")
     # ---- G6: __iter__ resumes after the cached prefix -----------------------------------
     itf = methods["__iter__"]
+    yf_any = [n for n in ast.walk(itf) if isinstance(n, ast.YieldFrom)
+              and any(is_self_attr(m, CACHE) for m in ast.walk(n.value))]
+    snap = [n for n in yf_any if not is_self_attr(n.value, CACHE)]
+    for n in snap:
+        # a snapshot is yielded: the resume index must be the snapshot's
+        # length, not the live cache's
+        inits = [m for m in ast.walk(itf) if isinstance(m, ast.Assign)
+                 and isinstance(m.value, ast.Call)
+                 and dotted(m.value.func) == "len" and m.value.args
+                 and is_self_attr(m.value.args[0], CACHE)
+                 and m.lineno > n.lineno]
+        chk.ob(RULE,
+               "LazyList.__iter__:snapshot", not inits,
+               f"`yield from {ast.unparse(n.value)}` replays a copy of the "
+               "cache but iteration resumes at len(self.generated) read "
+               "afterwards: items cached meanwhile by another observation "
+               "are skipped", F, n.lineno,
+               witness="two interleaved iterators over one lazy list")
     yf = [n for n in ast.walk(itf) if isinstance(n, ast.YieldFrom)
           and is_self_attr(n.value, CACHE)]
     if yf:
@@ -235,39 +367,12 @@ def check(chk, repo, tier):
             ok = any(isinstance(n, ast.Subscript) and isinstance(
                 n.slice, ast.Name) and n.slice.id == iv
                 for n in ast.walk(itf)) and inits[0].lineno > yf[0].lineno
-        chk.ob("C13.iter-resumes-after-cache", "LazyList.__iter__", ok,
+        chk.ob(RULE, "LazyList.__iter__", ok,
                "after `yield from self.generated` iteration must continue at "
                "index len(self.generated) (read after the prefix was "
                "yielded), otherwise items repeat or are skipped", F,
                itf.lineno, sample="i = len(self.generated)")
     else:
-        chk.info("C13.iter-resumes-after-cache", "LazyList.__iter__",
+        chk.info(RULE, "LazyList.__iter__",
                  "does not yield the cache wholesale; rule not applicable")
 
-    # ---- G4: observers reach the cache only through next(self) ----------------------------
-    for name in OBSERVERS:
-        fn = methods.get(name)
-        if fn is None:
-            continue
-        direct = [n for n in ast.walk(fn) if isinstance(n, ast.Call)
-                  and dotted(n.func) == "next" and n.args
-                  and is_self_attr(n.args[0], SOURCE)]
-        chk.ob("C13.observers-pull-through-next", f"LazyList.{name}",
-               not direct,
-               "an observer pulls from raw_object directly: the pulled item "
-               "is lost to the cache and later observations disagree", F,
-               direct[0].lineno if direct else fn.lineno,
-               sample={"observer": name})
-
-    chk.explanation = (
-        "Decides the clause 'observations never change the sequence the lazy "
-        "list denotes' through the cache discipline: every write to "
-        "*.generated in the package is classified (constructor reset, "
-        "__next__ append of the pulled item, __setitem__, extension from "
-        "raw_object that does not iterate self); raw_object is set once; the "
-        "cache list does not escape; __next__ caches exactly what it returns; "
-        "__iter__ resumes after the cached prefix; observers pull only "
-        "through next(self). Does not decide the values observers return "
-        "(wrap-around, slices, equality).")
-    chk.assumptions += ["LazyList instances are only built by the class "
-                        "constructor"]
